@@ -127,6 +127,10 @@ let run_case (t : string list) : string =
      | Ok s -> "OK " ^ String.concat "," (List.map (fun z -> string_of_int (int_of_z z)) s)
      | Err _ -> "ERR"
      | Panic _ -> "PANIC")
+  | ["ubuf"; calls] ->
+    let l = if calls = "-" then [] else List.map (fun c -> match String.split_on_char ':' c with
+        | [r; rl; k] -> ((r = "1", zs rl), zs k) | _ -> ((false, Z0), Z0)) (String.split_on_char ',' calls) in
+    String.concat ";" (List.map (fun ((a, b), c) -> Printf.sprintf "%d:%d:%d" (int_of_z a) (int_of_z b) (int_of_z c)) (cur_run ((Z0, Z0), Z0) l))
   | ["zbuf"; mx; ks] ->
     let z0 = { zb_new with zb_max = (if mx = "-" then None else Some (zs mx)) } in
     let l = if ks = "-" then [] else List.map zs (String.split_on_char ',' ks) in
